@@ -751,6 +751,11 @@ def check_matrix_rows(rep: Report, ix, rule_mismatch: str = "C18.matrix-vs-stenc
                     jobs.append((rel, fname, gcls, n_axes, kinds, rz, (2, 1)))
                 elif gcls == "CylindricalSymGrid":
                     jobs.append((rel, fname, gcls, n_axes, kinds, rz, (2, 1)))
+                # thorough tier: concrete three-dimensional shapes as well (every cell of a 2x2x2 box touches three boundaries,
+                # a 2x1x2 box has cells touching both sides of the middle axis)
+                if os.environ.get("PDELINT_TIER") == "thorough" and gcls == "CartesianGrid" and n_axes == 3:
+                    jobs.append((rel, fname, gcls, n_axes, kinds, rz, (2, 2, 2)))
+                    jobs.append((rel, fname, gcls, n_axes, kinds, rz, (2, 1, 2)))
     # second-order (curvature) conditions need two support cells: the package raises for them on a single-cell axis
     jobs = [j for j in jobs if not (j[6] and any(c == 1 and "C" in k for c, k in zip(j[6], j[4])))]
     with mp.get_context("fork").Pool(min(16, os.cpu_count() or 1)) as pool:
